@@ -351,6 +351,57 @@ def run_ibd(case, ctx):
 
 
 # ------------------------------------------------------------------ larger shapes (internal queue growth etc.)
+def enum_bigids(tier, seed):
+    for pad in ([50000] if tier == "quick" else [46340, 50000, 70000]):
+        for store in ("segments", "pairs", "both"):
+            for api in ("ts", "tables"):
+                yield dict(pad=pad, store=store, api=api)
+
+
+def run_bigids(case, ctx):
+    """A small genealogy whose node ids start beyond 46341 (pair keys a*N+b need more than 31 bits): the result
+    must be the one for the same genealogy at low ids, relabelled."""
+    import numpy as np
+    import tskit
+
+    pad = case["pad"]
+    base = dict(L=2.0, nodes=[[1, 0.0, -1, -1, ""], [1, 0.0, -1, -1, ""], [1, 0.0, -1, -1, ""], [0, 1.0, -1, -1, ""],
+                              [0, 2.0, -1, -1, ""]],
+                edges=[[0.0, 2.0, 3, 0, ""], [0.0, 1.0, 3, 1, ""], [1.0, 2.0, 4, 1, ""], [0.0, 2.0, 4, 2, ""],
+                       [0.0, 2.0, 4, 3, ""]],
+                sites=[], mutations=[], individuals=[], populations=[], migrations=[])
+    t = tskit.TableCollection(2.0)
+    t.nodes.set_columns(flags=np.zeros(pad, dtype=np.uint32), time=np.full(pad, 5.0))
+    for fl, tm, *_ in base["nodes"]:
+        t.nodes.add_row(flags=fl, time=tm)
+    for l, r, p_, c, _ in base["edges"]:
+        t.edges.add_row(l, r, p_ + pad, c + pad)
+    t.sort()
+    t.build_index()
+    obj = t.tree_sequence() if case["api"] == "ts" else t
+    kw = _kwargs(dict(req=dict(mode="default"), min_span=None, max_time=None, store=case["store"]))
+    kw["within"] = [pad, pad + 1, pad + 2]
+    res = obj.ibd_segments(**kw)
+    pairs = requested_pairs(base, dict(mode="default"))
+    exp = {}
+    for p_, segs in expected_segments(base, pairs).items():
+        exp[(p_[0] + pad, p_[1] + pad)] = sorted((l, r, a + pad) for (l, r, a, _sig) in segs)
+    ctx.nt(True)
+    ctx.check(res.num_segments == sum(len(v) for v in exp.values()), "bigids.num_segments", f"{res.num_segments}")
+    ctx.check(res.num_pairs == len(exp), "bigids.num_pairs", f"{res.num_pairs} expected {len(exp)}")
+    if case["store"] in ("pairs", "both"):
+        got_pairs = sorted(tuple(int(x) for x in pr) for pr in res.pairs)
+        ctx.check(got_pairs == sorted(exp), "bigids.pairs", f"pairs {got_pairs} expected {sorted(exp)}")
+        for pr in sorted(exp):
+            lst = res[pr]
+            ctx.check(len(lst) == len(exp[pr]), "bigids.len", f"pair {pr}: {len(lst)} segments expected {len(exp[pr])}")
+            if case["store"] == "both":
+                got = sorted((float(sg.left), float(sg.right), int(sg.node)) for sg in lst)
+                ctx.check(got == exp[pr], "bigids.segments", f"pair {pr}: {got} expected {exp[pr]}")
+        for pr in iter(res):
+            ctx.check(tuple(int(x) for x in pr) in exp, "bigids.iter", f"iteration yields {tuple(pr)}")
+
+
 def enum_large(tier, seed):
     sizes = [65, 80, 130] if tier == "quick" else [64, 65, 80, 129, 130, 200, 260]
     for shape in ("comb", "balanced", "star"):
@@ -441,6 +492,8 @@ SUBCHECKS = [
                      "ancestor_pair": 0.15, "min_span_cuts": 0.08, "max_time_cuts": 0.06,
                      "filter_cuts_some_keeps_some": 0.02,
                      "mode_between": 0.12, "mode_within": 0.15, "nonsample_requested": 0.08}),
+    SubCheck("C19.big_ids", run_bigids, enumerate=enum_bigids, quick=1, thorough=1, shards=6,
+             rule="a 5-node genealogy placed behind 50000 (thorough: 46340-70000) padding nodes; three store modes x two entry points"),
     SubCheck("C19.large_shapes", run_large, enumerate=enum_large, quick=1, thorough=1,
              rule="comb / balanced / star trees with 65-130 (thorough: up to 260) samples, all sample pairs, three store modes"),
     SubCheck("C19.exhaustive_small", run_small, enumerate=enum_small, quick=1, thorough=1,
